@@ -23,6 +23,7 @@ type c08ex struct {
 	mode   string // d: direct plain (VT), g: direct grouped (VT_G1), r: reverse plain (CC), h: reverse grouped (CC_G1)
 	ids    map[string]string // sym -> swap id (hex)
 	begun  map[string]bool
+	to     string // the destination as the owner spells it ("CC", or "cc": channel names are matched in upper case)
 }
 
 func (e *c08ex) u(name string) *simpeer.User {
@@ -70,8 +71,12 @@ func (e *c08ex) Exec(op string) string {
 	}
 	wd := theWorld()
 	if w[0] == "reset" {
-		if len(w) != 2 {
+		if len(w) != 2 && !(len(w) == 3 && w[2] == "lc" && (w[1] == "d" || w[1] == "g")) {
 			return "bad-op"
+		}
+		e.to = "CC"
+		if len(w) == 3 {
+			e.to = "cc"
 		}
 		e.mode = w[1]
 		e.direct = w[1] == "d" || w[1] == "g"
@@ -107,7 +112,7 @@ func (e *c08ex) Exec(op string) string {
 		}
 		sym := w[1]
 		h := sha3.Sum256([]byte(e.key(sym, "right")))
-		args := e.a.Signed(e.u(w[2]), "swapBegin", e.token(), "CC", w[3], hex.EncodeToString(h[:]))
+		args := e.a.Signed(e.u(w[2]), "swapBegin", e.token(), e.to, w[3], hex.EncodeToString(h[:]))
 		e.nontrivial = true
 		id := e.id(sym)
 		if w[4] == "task" || e.begun[sym] {
@@ -179,20 +184,24 @@ func (e *c08ex) Exec(op string) string {
 		idb, _ := hex.DecodeString(e.id(w[1]))
 		h := sha3.Sum256([]byte(e.key(w[1], "right")))
 		b := e.b.ExecBatch(&fpb.Batch{Swaps: []*fpb.Swap{{Id: idb, Creator: []byte("0000"), Owner: e.u(w[2]).AddrRaw, Token: e.token(),
-			Amount: amt.Bytes(), From: "VT", To: "CC", Hash: h[:], Timeout: 1}}})
+			Amount: amt.Bytes(), From: "VT", To: e.to, Hash: h[:], Timeout: 1}}})
 		if b.Resp == nil || len(b.Resp.SwapResponses) != 1 || b.Resp.SwapResponses[0].GetError() != nil {
 			return "err"
 		}
 		return "ok"
-	case "done", "doneA":
+	case "done", "doneA", "doneU", "doneAU":
 		if len(w) != 3 {
 			return "bad-op"
 		}
 		c := e.b
-		if w[0] == "doneA" {
+		if strings.HasPrefix(w[0], "doneA") {
 			c = e.a
 		}
 		id := e.id(w[1])
+		if strings.HasSuffix(w[0], "U") {
+			// the id in upper case names no record
+			id = strings.ToUpper(id)
+		}
 		r := c.Invoke(wd.Client.Creator, simpeer.NewTxID(), "swapDone", id, e.key(w[1], w[2]))
 		if !r.OK() {
 			return "err"
@@ -216,6 +225,10 @@ func (e *c08ex) Exec(op string) string {
 		return okErr(e.a.Do(wd.Users[2], "swapCancel", e.id(w[1])))
 	case "cancelB":
 		return okErr(e.b.Do(wd.Users[2], "swapCancel", e.id(w[1])))
+	case "cancelAU":
+		return okErr(e.a.Do(wd.Users[2], "swapCancel", strings.ToUpper(e.id(w[1]))))
+	case "cancelBU":
+		return okErr(e.b.Do(wd.Users[2], "swapCancel", strings.ToUpper(e.id(w[1]))))
 	case "dump":
 		var as, bs []string
 		stray := new(big.Int)
@@ -261,6 +274,17 @@ func (e *c08ex) Exec(op string) string {
 	return "bad-op"
 }
 
+// completions and cancellations naming the swap with its id in upper case: no such record
+var upperOps = []string{"doneU s1 right", "doneAU s1 right", "cancelAU s1", "cancelBU s1"}
+
+// lcOf: in the direct modes the owner may spell the destination channel in lower case
+func lcOf(c *Cfg, dir string) string {
+	if (dir == "d" || dir == "g") && c.Rng.Intn(3) == 0 {
+		return " lc"
+	}
+	return ""
+}
+
 func genC08(c *Cfg, emit func([]string)) {
 	depth := 3
 	if c.Thorough() {
@@ -287,8 +311,11 @@ func genC08(c *Cfg, emit func([]string)) {
 		}
 		if !c.Thorough() {
 			for i := 0; i < 700; i++ {
-				h := []string{"reset " + dir, "fund u0 100"}
+				h := []string{"reset " + dir + lcOf(c, dir), "fund u0 100"}
 				for j := 0; j < depth+3; j++ {
+					if c.Rng.Intn(8) == 0 {
+						h = append(h, upperOps[c.Rng.Intn(len(upperOps))], "dump")
+					}
 					h = append(h, alpha[c.Rng.Intn(len(alpha))], "dump")
 				}
 				emit(h)
@@ -303,7 +330,7 @@ func genC08(c *Cfg, emit func([]string)) {
 	}
 	for i := 0; i < nRand; i++ {
 		dir := []string{"d", "r", "g", "h"}[c.Rng.Intn(4)]
-		h := []string{"reset " + dir, "fund u0 100", "fund u1 60"}
+		h := []string{"reset " + dir + lcOf(c, dir), "fund u0 100", "fund u1 60"}
 		type sw struct {
 			sym, user string
 			amt       int
@@ -322,7 +349,9 @@ func genC08(c *Cfg, emit func([]string)) {
 				sws = append(sws, sw{sym, u, amt})
 			} else {
 				s := sws[c.Rng.Intn(len(sws))]
-				switch c.Rng.Intn(10) {
+				switch c.Rng.Intn(11) {
+				case 10:
+					h = append(h, strings.Replace(upperOps[c.Rng.Intn(len(upperOps))], "s1", s.sym, 1))
 				case 0, 1:
 					u, a := s.user, s.amt
 					if c.Rng.Intn(6) == 0 {
@@ -351,6 +380,6 @@ func genC08(c *Cfg, emit func([]string)) {
 		}
 		emit(h)
 	}
-	c.Rule = fmt.Sprintf("(a) every sequence of %d steps over {begin, answer, user completion with right/wrong key on either channel, robot completion with right/wrong key, cancel on A, cancel on B} on one swap in both directions (exhaustive%s); (b) %d random histories with two concurrent swaps by different owners, begin through batches and task lists, a second begin under the id of an open swap (task route), begins with a token of neither channel, robot content off protocol; two real chaincode instances; after every step balances of both owners on both channels, both given counters and the records visible through swapGet; the published key event is checked on completion. non-trivial = contains a begin; distinct = sha256", depth, map[bool]string{true: "", false: ", plus 1400 random walks of depth+3"}[c.Thorough()], nRand)
+	c.Rule = fmt.Sprintf("(a) every sequence of %d steps over {begin, answer, user completion with right/wrong key on either channel, robot completion with right/wrong key, cancel on A, cancel on B} on one swap in both directions (exhaustive%s); (b) %d random histories with two concurrent swaps by different owners, begin through batches and task lists, a second begin under the id of an open swap (task route), begins with a token of neither channel, robot content off protocol, completions and cancellations naming the swap id in upper case (no such record), the destination channel spelled in lower case by the owner (direct swaps; counters stay under the upper-case name); two real chaincode instances; after every step balances of both owners on both channels, both given counters and the records visible through swapGet; the published key event is checked on completion. non-trivial = contains a begin; distinct = sha256", depth, map[bool]string{true: "", false: ", plus 1400 random walks of depth+3"}[c.Thorough()], nRand)
 	c.Extra = map[string]any{"walk_depth": depth, "random": nRand}
 }
